@@ -151,6 +151,8 @@ func checkC18(repo, tier string, verifSeed uint64) int {
 		}
 	}
 
+	canaryViolation := checkCanary(b, results, verifSeed, root, known, logf)
+
 	exit := 0
 	printedKnown := map[string]bool{}
 	for _, fv := range found {
@@ -188,6 +190,11 @@ func checkC18(repo, tier string, verifSeed uint64) int {
 		}
 		path := reportViolation(b, fv, verifSeed, plan, root, logf)
 		fmt.Printf("VIOLATION property=C18 replay=%s\n", path)
+		exit = 1
+	}
+	if canaryViolation != "" {
+		ev.Violations++
+		fmt.Printf("VIOLATION property=C18 replay=%s\n", canaryViolation)
 		exit = 1
 	}
 	if exit == 0 && len(infra) > 0 {
@@ -334,6 +341,31 @@ func replayCmd(repo, path string) int {
 		return 2
 	}
 	race := rf.Build == "race"
+	if len(rf.CanaryBatches) == 2 {
+		b, err := buildAll(repo, true)
+		defer b.Cleanup()
+		if err != nil {
+			logf("BUILD FAILED: %v", err)
+			return 2
+		}
+		var d [2]map[string]string
+		for i, cb := range rf.CanaryBatches {
+			bt := Batch{Seed: cb.Seed, Runs: cb.Runs, Race: cb.Race, Tier: cb.Tier, NoCold: cb.NoCold}
+			res := runWorker(b, bt.Race, batchArgs(bt), filepath.Join(b.Scratch, fmt.Sprintf("race-canary-%d", i)), 10*time.Minute)
+			if res.End == nil {
+				logf("INFRASTRUCTURE: canary batch %d did not complete (exit %d): %s", cb.Seed, res.ExitCode, tail(res.Stderr, 1500))
+				return 2
+			}
+			d[i] = res.End.Canary
+		}
+		if keys := canaryDiffKeys(d[0], d[1]); len(keys) > 0 {
+			fmt.Printf("violation oracle=O7: canary digests differ between the two worker processes for: %s\n", strings.Join(keys, ", "))
+			fmt.Printf("VIOLATION property=C18 replay=%s\n", path)
+			return 1
+		}
+		fmt.Println("replay: no violation")
+		return 0
+	}
 	b, err := buildAll(repo, race)
 	defer b.Cleanup()
 	if err != nil {
@@ -359,4 +391,109 @@ func replayCmd(repo, path string) int {
 	}
 	fmt.Println("replay: no violation")
 	return 0
+}
+
+func canaryKey(m map[string]string) string {
+	ks := make([]string, 0, len(m))
+	for k := range m {
+		ks = append(ks, k)
+	}
+	sort.Strings(ks)
+	var sb strings.Builder
+	for _, k := range ks {
+		sb.WriteString(k + "=" + m[k] + ";")
+	}
+	return sb.String()
+}
+
+func canaryDiffKeys(a, b map[string]string) []string {
+	var out []string
+	for k, v := range a {
+		if b[k] != v {
+			out = append(out, k)
+		}
+	}
+	for k := range b {
+		if _, ok := a[k]; !ok {
+			out = append(out, k)
+		}
+	}
+	sort.Strings(out)
+	return uniq(out)
+}
+
+// checkCanary is oracle O7: every worker process that completed its batch must report the same digests
+// for the fixed canary program.  Returns the path of a replay file if two processes disagree.
+func checkCanary(b *Build, results []*BatchResult, verifSeed uint64, root string, known KnownFindings, logf func(string, ...interface{})) string {
+	groups := map[string][]*BatchResult{}
+	for _, r := range results {
+		if r == nil || r.End == nil || len(r.End.Canary) == 0 || r.Viol != nil || r.ExitCode != 0 {
+			continue
+		}
+		k := canaryKey(r.End.Canary)
+		groups[k] = append(groups[k], r)
+	}
+	if len(groups) <= 1 {
+		return ""
+	}
+	// the largest group is taken as the reference, the smallest as the deviant
+	var ref, dev *BatchResult
+	refN, devN := -1, 1<<30
+	for _, g := range groups {
+		if len(g) > refN {
+			refN, ref = len(g), g[0]
+		}
+	}
+	for _, g := range groups {
+		if g[0] != ref && len(g) < devN {
+			devN, dev = len(g), g[0]
+		}
+	}
+	keys := canaryDiffKeys(ref.End.Canary, dev.End.Canary)
+	v := Violation{Oracle: "O7", Clause: "c: results differ between worker processes with different call histories", World: "cross-process",
+		Op: "canary", Kind: strings.Join(keys, ","), Verdict: true,
+		Expected: fmt.Sprintf("batch %d (%d processes agree)", ref.Batch.Seed, refN), Actual: fmt.Sprintf("batch %d (%d processes)", dev.Batch.Seed, devN),
+		Detail: "digests of a fixed program over fixed values, computed at the end of every worker batch; operation/kind pairs that differ: " + strings.Join(keys, ", ")}
+	if kf := known.match(&v); kf != nil {
+		fmt.Printf("KNOWN-FINDING: property=C18 %s\n", kf.What)
+		return ""
+	}
+	logf("O7: canary digests differ between worker processes (%d groups); differing: %s", len(groups), strings.Join(keys, ", "))
+	mk := func(r *BatchResult, runs int) CanaryBatch {
+		return CanaryBatch{Seed: r.Batch.Seed, Runs: runs, Race: r.Batch.Race, Tier: r.Batch.Tier, NoCold: r.Batch.NoCold}
+	}
+	// minimise: smallest prefix of the deviant batch that still deviates (runs are generated in order from the batch seed)
+	lo, hi := 0, dev.Batch.Runs
+	digestFor := func(r *BatchResult, runs int) map[string]string {
+		bt := r.Batch
+		bt.Runs = runs
+		res := runWorker(b, bt.Race, batchArgs(bt), filepath.Join(b.Scratch, "race-canary"), 10*time.Minute)
+		if res.End == nil {
+			return nil
+		}
+		return res.End.Canary
+	}
+	for lo < hi {
+		mid := (lo + hi) / 2
+		d := digestFor(dev, mid)
+		if d != nil && canaryKey(d) != canaryKey(ref.End.Canary) {
+			hi = mid
+		} else {
+			lo = mid + 1
+		}
+	}
+	rf := &ReplayFile{Property: "C18", VerifSeed: verifSeed, Build: "both", Violation: []Violation{v}, Minimised: true,
+		CanaryBatches: []CanaryBatch{mk(ref, ref.Batch.Runs), mk(dev, hi)}, CanaryKeys: keys,
+		Note: "O7: run each batch in its own worker process and compare the canary digests computed at the end; the first batch is one of the majority, the second the shortest prefix of a deviating batch that still deviates"}
+	// reproducible?
+	d0, d1 := digestFor(ref, ref.Batch.Runs), digestFor(dev, hi)
+	rf.Reproducible = d0 != nil && d1 != nil && canaryKey(d0) != canaryKey(d1)
+	rdir := filepath.Join(root, "replays")
+	if replaysDir != "" {
+		rdir = replaysDir
+	}
+	path := filepath.Join(rdir, fmt.Sprintf("C18-canary-%d.json", dev.Batch.Seed))
+	_ = writeJSON(path, rf)
+	logf("O7 replay file: deviating batch needs %d run(s); reproducible=%v", hi, rf.Reproducible)
+	return path
 }
